@@ -541,8 +541,10 @@ def path_programs_c17():
 def large_programs_c17():
     out = []
 
-    def prog(name, n, fn, **kw):
+    def prog(name, n, fn, gen=False, **kw):
         A = {"k": "ann", "name": "PSD", "of": {"k": "diag", "n": n, "dtype": "f8", "seed": 5, "pos": True}}
+        if gen:  # no structural diag/trace/eig rule: a user operator computing a diagonal product
+            A = {"k": "ann", "name": "PSD", "of": {"k": "no_dispatch", "of": A["of"]}}
         c = {"op": "call", "fn": fn, "args": dict({"A": {"slot": "A0"}}, **kw)}
         steps = [{"op": "make", "slot": "A0", "recipe": A}, dict(c),
                  {"op": "user", "act": ["draw", "randn", 2], "slot": "s0"}, dict(c, repeat_of=1),
@@ -568,6 +570,11 @@ def large_programs_c17():
     prog("slq_n300", 300, "slq", fun="log", max_iters=10, vtol=0.5, key=4)
     prog("power_iteration_n1000", 1000, "power_iteration", max_iter=50, tol=1e-9, key=None)
     prog("lanczos_n300_full", 300, "lanczos", max_iters=300, tol=1e-7, key=1)
+    # prod(shape) > 1e6: the Auto() wrappers switch to their iterative / stochastic branches with DEFAULT keys
+    prog("diag_auto_n1001", 1001, "diag_auto", gen=True, tol=0.5, max_iters=1, k=0)
+    prog("trace_auto_n1001_key", 1001, "trace_auto", gen=True, tol=0.5, max_iters=1, key=5)
+    prog("eig_auto1_n1001", 1001, "eig_auto1", gen=True, max_iter=3)
+    prog("eig_default_large_sa", 1001, "eig", gen=True, k=2, which="LM", alg="Auto", akw={"max_iters": 5})
     prog("hutch_n101", 101, "hutch", tol=0.5, max_iters=2, key=3, k=0)
     prog("hutch_n1000", 1000, "hutch", tol=0.5, max_iters=1, key=3, k=-3)
     return out
